@@ -219,6 +219,7 @@ class Check(PropertyCheck):
             runs.append((spec, out, None))
         # the real executors (threads and processes, no controlled schedule): same reference result
         runs += self.real_executor_runs()
+        nb += self.thread_sessions()
         for spec, out, rc in runs:
             self.evaluations += 1
             try:
@@ -243,6 +244,43 @@ class Check(PropertyCheck):
         self.stat("oracle", "programs", len(runs))
         self.stat("oracle", "violations", nb)
         self.ob("oracle", "implementation oracle ran (Scheduler.run result/error == reference evaluator)", True)
+
+    def thread_sessions(self):
+        """fork_thread/join_thread in several scheduler sessions on one database: every join returns its own thread's value"""
+        import logging
+        import shutil
+        from redun import Scheduler
+        from redun.config import Config
+        from harness.lib import scratch_dir
+        from harness.progs import c01_threads as T
+        logging.getLogger("redun").setLevel(logging.ERROR)
+        tmp = scratch_dir("rv_c01t_")
+        nb = 0
+        try:
+            for h in range(4 if self.tier == "quick" else 60):
+                db = tmp / f"t{h}.db"
+                plans = [[10], [7, 10]] if h == 0 else [
+                    [self.rng.randint(1, 6) for _ in range(self.rng.randint(1, 3))] for _ in range(self.rng.randint(2, 3))]
+                for si, xs in enumerate(plans):
+                    s = Scheduler(config=Config({"backend": {"db_uri": f"sqlite:///{db}"}}))
+                    s.load()
+                    s.logger.disabled = True
+                    try:
+                        got = s.run(T.session(xs))
+                    except Exception as e:  # noqa: BLE001
+                        got = ("error", type(e).__name__, str(e)[:200])
+                    self.evaluations += 1
+                    want = [2 * x for x in xs]
+                    if got != want:
+                        nb += 1
+                        self.findings.append(Finding(f"threads:{plans[:si + 1]!r}"[:200],
+                                                     f"session {si + 1} of {plans!r} on one database returned {got!r}, "
+                                                     f"join_thread(fork_thread(e)) = e gives {want!r}",
+                                                     {"thread_sessions": plans[:si + 1]}))
+                        break
+        finally:
+            shutil.rmtree(tmp, ignore_errors=True)
+        return nb
 
     def real_executor_runs(self):
         import logging
